@@ -261,7 +261,21 @@ InDone(j, ok) ==
                      /\ st' = [st EXCEPT ![k] = "absent"] /\ Forget(k)
   /\ UNCHANGED <<ord, lastRead, clock, lockAll, count, file, content, tainted>>
 
+\* read-only requests of the protocol (cascade.shm.server): what the store reports about itself
+AllVarsUnchanged == UNCHANGED <<st, fresh, stale, cstale, reads, ord, lastRead, delayed, clock, free, lockAll, count, jobs, seg, file, content, tainted>>
+AskFree == /\ last' = <<"AskFree", free>> /\ last # <<"AskFree", free>> /\ AllVarsUnchanged
+\* DatasetStatusRequest: "ready" once the writer has finished (wherever the bytes are now), "not_present" before / unknown key
+AskStatus(k) == /\ last' = <<"AskStatus", k, IF st[k] \in {"absent", "created"} THEN "not_present" ELSE "ready">>
+                /\ last[1] # "AskStatus" /\ AllVarsUnchanged
+\* requests that name a key the store does not know are answered with an error and change nothing
+GetUnknown(k) == /\ st[k] = "absent" /\ last' = <<"Get", k, "error">> /\ last # <<"Get", k, "error">> /\ AllVarsUnchanged
+CloseUnknown(k) == /\ st[k] = "absent" /\ last' = <<"CloseWrite", k, "error">> /\ last # <<"CloseWrite", k, "error">> /\ AllVarsUnchanged
+
 Next ==
+  \/ AskFree
+  \/ \E k \in Key : AskStatus(k)
+  \/ \E k \in Key : GetUnknown(k)
+  \/ \E k \in Key : CloseUnknown(k)
   \/ \E k \in Key : Add(k)
   \/ \E k \in Key : CloseWrite(k)
   \/ \E k \in Key : Get(k)
@@ -313,6 +327,8 @@ FreshReaderProtectedU == U(FreshReaderProtected)
 LockSaneU == U(LockSane)
 CountSaneU == U(CountSane)
 NotTainted == tainted = {}
+\* C08: the free space the store REPORTS is the accounted one
+ReportedFreeIsAccounted == (last[1] = "AskFree") => last[2] = free
 TypeOK == /\ \A k \in Key : st[k] \in {"absent", "created", "in_memory", "paging_out", "on_disk", "paged_in"}
           /\ count \in 0..Cardinality(Key)
 =============================================================================
